@@ -610,9 +610,14 @@ def run_markup(ctx, quick):
         ctx.count()
         ctx.nontriv(("rndmsg", i))
     # messages over the styles registered by default, through formatters / I/Os built without a style set
-    dt = default_tags()
+    try:
+        dt = default_tags()
+    except Exception as e:  # noqa: a default style set that cannot be read is an observation
+        dt = {}
+        traces.append([{"msg": [], "base": [], "col": False, "how": "dflt-styles", "claim": "all", "res": type(e).__name__, "toks": []}])
+        cases.append({"part": "a", "msg": [], "base": [], "col": False, "how": "dflt-P.format"})
     dt["k9"] = dict(TAGS["tb"], name="k9")  # one more style, added to the default ones after construction
-    for i in range(200 if quick else 3000):
+    for i in range((200 if quick else 3000) if len(dt) > 1 else 0):
         msg = random_message(ctx.rng, ctx.rng.randint(1, 12), balanced=True, names=sorted(dt), table=dt)
         col = ctx.rng.random() < 0.5
         how = ctx.rng.choice(hows(col, "default"))
@@ -654,10 +659,13 @@ def shared_formatter_trace(msgs, plain=False, outputs=False):
     from clikit.formatter import AnsiFormatter, PlainFormatter
     from clikit.io.output_stream import BufferedOutputStream
 
-    f = build(PlainFormatter if plain else AnsiFormatter, [TAGS["ta"], TAGS["tb"]])
-    Rec = G._rec_class()
-    outs = {True: Output(Rec(BufferedOutputStream(), True), f), False: Output(Rec(BufferedOutputStream()), f)} if outputs else None
     evs, claim = [], "all"
+    try:
+        f = build(PlainFormatter if plain else AnsiFormatter, [TAGS["ta"], TAGS["tb"]])
+        Rec = G._rec_class()
+        outs = {True: Output(Rec(BufferedOutputStream(), True), f), False: Output(Rec(BufferedOutputStream()), f)} if outputs else None
+    except Exception as e:  # noqa: a formatter that cannot be built / given its styles is an observation
+        return [{"msg": [], "base": [], "col": False, "how": "shared-build", "claim": "all", "res": type(e).__name__, "toks": []}]
     for k, msg in enumerate(msgs):
         col = k % 2 == 0 and not plain
         how = "shared-%s%s." % ("P" if plain else "A", "/O" if outputs else "") + ("format" if col or plain and k % 2 == 0 else "rm_format")
